@@ -44,6 +44,10 @@ DeliverTags(pre, c, e) ==
                       ELSE IF BalOf(post, FEE) # BalOf(pre, FEE) + tx.fee THEN {"C15"}
                       ELSE {"C18"})
                      \cup (IF (e.res.code = 0) # AuthDeliverOK(pre, c, tx, h) THEN {"C18"} ELSE {})
+                     \* C15: the declared fee of an authenticated transaction is at least the required fee
+                     \* (the ante handler skips that check for multi-signature keys: listed finding F-C15-multisig)
+                     \cup (IF tx.fee < RequiredFee(c, tx)
+                            THEN {IF "F-C15-multisig" \in Known /\ tx.multisig THEN "F-C15-multisig" ELSE "C15"} ELSE {})
                      \* C16: the same signed content, re-encoded into different bytes, took effect AGAIN
                      \* (replay protection is keyed on the hash of the raw bytes: listed finding F-C16)
                      \cup (IF tx.dup = "reencoded" /\ tx.priorEffect /\ post # pre
